@@ -31,7 +31,10 @@ PID = "C02"
 WORK = os.path.join(vlib.WORK, "C02")
 RUN = os.path.join(WORK, "run")
 KEYS = os.path.join(WORK, "keys")
-THEOREMS = ["crc_bridge", "crc_ok", "sig_range_v1", "certblock_lengths_v1", "hmac_ok", "coverage_mbi", "kinds_cover_database"]
+THEOREMS = ["crc_bridge", "crc_ok", "sig_range_v1", "certblock_lengths_v1", "hmac_ok", "enc_roundtrip", "sig_range_v21",
+            "manifest_digest", "coverage_mbi", "kinds_cover_database"]
+# refutation witnesses of recorded findings: expected to hold while the finding is open (see refuted_theorems)
+REFUTED = {"digest_alg_mismatch_refuted": "C02-F1", "enc_empty_keystore_refuted": "C02-F2"}
 MIXIN_IDS = ["MixinApp", "MixinTrustZone", "MixinTrustZoneMandatory", "MixinLoadAddress", "MixinLoadAddressOptional",
              "MixinFwVersion", "MixinImageVersion", "MixinImageSubType", "MixinIvt", "MixinIvtZeroTotalLength",
              "MixinBcaTable", "MixinBcaObsolete", "MixinFcfObsolete", "MixinRelocTable", "MixinManifest", "MixinManifestCrc",
@@ -362,13 +365,18 @@ def run_model(tag, exprs, shard, timeout=1500, jobs=8):
                     + "".join(f"Eval vm_compute in (compact ({e_})).\n" for e_ in sh_))
     results = [None] * len(names)
     running, idx = {}, 0
-    while idx < len(names) or running:
-        while idx < len(names) and len(running) < jobs:
-            n = names[idx]
-            running[idx] = subprocess.Popen(
-                f"ulimit -s unlimited 2>/dev/null; timeout {timeout} coqc -R . V -w -all Cases/{n}.v > Cases/{n}.out 2>&1",
-                shell=True, cwd=vlib.COQ)
-            idx += 1
+    queue = list(range(len(names)))
+    tries = {}
+
+    def start(i):
+        n = names[i]
+        tries[i] = tries.get(i, 0) + 1
+        running[i] = subprocess.Popen(
+            f"ulimit -s unlimited 2>/dev/null; timeout {timeout} coqc -R . V -w -all Cases/{n}.v > Cases/{n}.out 2>&1",
+            shell=True, cwd=vlib.COQ)
+    while queue or running:
+        while queue and len(running) < jobs:
+            start(queue.pop(0))
         done = [i for i, p in running.items() if p.poll() is not None]
         if not done:
             time.sleep(0.05)
@@ -377,7 +385,10 @@ def run_model(tag, exprs, shard, timeout=1500, jobs=8):
             p = running.pop(i)
             out = open(os.path.join(d, names[i] + ".out")).read()
             if p.returncode != 0:
-                raise RuntimeError(f"model evaluation failed ({names[i]}): {out[-2000:]}")
+                if tries[i] < 2 and "Error" not in out:          # killed (shared machine under memory pressure): once more
+                    queue.append(i)
+                    continue
+                raise RuntimeError(f"model evaluation failed ({names[i]}, rc {p.returncode}): {out[-1500:]}")
             results[i] = parse_cvalues(out)
     flat = []
     for r, sh_ in zip(results, shards):
@@ -528,6 +539,22 @@ def tamper_positions(rng, img, r, kind, every):
     return out
 
 
+def refuted_theorems(rep):
+    """`..._refuted` theorems exhibit a recorded finding on the model.  While the finding is reproduced on the implementation
+    they must compile; when the defect has been repaired upstream (finding not reproduced, model changed) a theorem that no
+    longer compiles is reported as 'finding disappeared' and not as a broken obligation."""
+    for name, fid in REFUTED.items():
+        ok, out = vlib.coqc(f"Props/{PID}/{name}.v", timeout=900)
+        closed = ok and all(c for c, _ in vlib.parse_assumptions(out)) and bool(vlib.parse_assumptions(out))
+        if closed:
+            rep.obligation(f"theorem:{name}", True)
+        elif fid in rep.known_hits:
+            rep.obligation(f"theorem:{name}", False, out)
+        else:
+            vlib.log(f"  note: {name} no longer holds and finding {fid} is not reproduced on the implementation: the finding has disappeared")
+            rep.obligation(f"theorem:{name} (finding {fid} disappeared)", True)
+
+
 # ------------------------------------------------------------------ main
 def clean_work():
     shutil.rmtree(RUN, ignore_errors=True)
@@ -577,6 +604,7 @@ def run(tier):
     vlib.log(f"  implementation: {len(gen)} cases in {time.time() - t0:.1f} s")
     streams = {}
     accepted = []                 # (stream, case, fam, offer, res, romresult, kind)
+    rejected = []                 # exported, but rejected by the reference ROM: (case, res)
     rejected_inputs = 0
     for (stream, case, fam, offer) in gen:
         res = results[id(case)]
@@ -605,6 +633,8 @@ def run(tier):
                                                                            if k in ("kind", "size", "main", "depth", "curve", "isk")}})
         if r is not None:
             accepted.append((stream, case, fam, offer, res, r, kind))
+        else:
+            rejected.append((case, res))
     # tamper: single-bit corruptions must be rejected by ROM + oracle
     t0 = time.time()
     ntamper, tamper_samples, tamper_model = 0, [], []
@@ -650,6 +680,13 @@ def run(tier):
                 exprs.append("MbiRomModel.run_case 2 [" + "; ".join(lit(a) for a in
                              [class_value(res["mixins"], res["image_type"]), mbi_value(res["input"]), VB(sig)]) + "]")
                 expect.append(("export", case, res, r))
+            for (case, res) in rejected:
+                if not model_supported(res["mixins"]):
+                    continue
+                sig = bytes.fromhex(res["signed"][0][1]) if res.get("signed") else b""
+                exprs.append("MbiRomModel.run_case 2 [" + "; ".join(lit(a) for a in
+                             [class_value(res["mixins"], res["image_type"]), mbi_value(res["input"]), VB(sig)]) + "]")
+                expect.append(("export", case, res, None))
             for (cfg, keys, bad, structural) in tamper_model:
                 args = [cfg_value(cfg), VB(keys["rkth"] or b""), VB(keys["user_key"] or b""), VB(bad)]
                 exprs.append("MbiRomModel.run_case 3 [" + "; ".join(lit(a) for a in args) + "]")
@@ -690,6 +727,8 @@ def run(tier):
     for name, st in streams.items():
         rep.add_stream(name, st["n"], len(st["exported"]), samples=st["samples"], extra={"kinds": st["kinds"]})
     rep.add_stream("single-bit corruptions", ntamper, ntamper, samples=tamper_samples)
+    if not dev and model_ok:
+        refuted_theorems(rep)
     clean_work()
     return rep.finish(
         rule="cases are drawn from VERIF_SEED over (family, class) x key material x options; distinct_nontrivial counts distinct "
@@ -716,5 +755,33 @@ def enc_obl(o):
     return ("l", [("i", 4), ("i", o[1]), ("b", o[2]), ("b", o[3]), ("b", o[4])])
 
 
+def replay(path):
+    """re-run one recorded failing input on the implementation and the oracles"""
+    d = json.load(open(path))
+    r = d["replay"]
+    os.makedirs(RUN, exist_ok=True)
+    db = vlib.run_impl("c02_impl.py", {"mode": "dump"})
+    fam = [f for f in db["families"] if f["family"] == r["case"]["family"]][0]
+    offer = [o for o in fam["offers"] if o["target"] == r["case"]["target"] and o["auth"] == r["case"]["auth"]][0]
+    res = vlib.run_impl("c02_impl.py", {"work": os.path.join(RUN, "replay"), "cases": [r["case"]]})["results"][0]
+    if res.get("export") != "ok":
+        print("export:", res.get("export") or res.get("load") or res.get("config"))
+        return 0
+    img = bytes.fromhex(res["image"])
+    if r.get("kind") == "tamper":
+        bad = bytearray(img)
+        bad[r["offset"]] ^= 1
+        ok, why = rom.accept(rom_cfg(fam, res["mixins"], res["image_type"]), rom_keys(r["case"], res), bytes(bad))
+        print("corrupted image accepted by the reference ROM:", ok)
+        return 1 if ok else 0
+    fails, _ = oracle(r["case"], res, fam, offer)
+    for sig, msg in fails:
+        print("FAIL", sig, msg)
+    clean_work()
+    return 1 if fails else 0
+
+
 if __name__ == "__main__":
+    if len(sys.argv) > 2 and sys.argv[1] == "--replay":
+        sys.exit(replay(sys.argv[2]))
     sys.exit(run(sys.argv[1] if len(sys.argv) > 1 else "quick"))
